@@ -5,6 +5,8 @@ P="$1"; shift
 cd /repo || exit 2
 if ! git apply --3way --whitespace=nowarn "$P" 2>/tmp/mutest_apply.err; then echo "APPLY-FAILED $(head -3 /tmp/mutest_apply.err | tr '\n' ' ')"; git checkout -- . ; git reset -q; exit 3; fi
 git reset -q
+# the evidence files describe the unchanged tree: keep them out of the way while a changed tree is checked
+EVB=$(mktemp -d /tmp/mutest_evidence.XXXXXX); cp -a /verif/evidence/. "$EVB"/ 2>/dev/null
 for c in "$@"; do
   out=$(cd /verif && timeout 1200 ./check "$c" --tier quick 2>&1)
   rc=$?
@@ -12,3 +14,4 @@ for c in "$@"; do
   echo "$out" | tail -1
 done
 git checkout -- . ; git status --short | grep -v _build | head -3
+cp -a "$EVB"/. /verif/evidence/ 2>/dev/null; rm -rf "$EVB"
